@@ -174,6 +174,10 @@ func schedScenarios() []schedScenario {
 		// a topic starts would throttle the sender from the fifth topic on
 		{"sequential-topics", [][]boxCall{{recv(1, 0, 1), send(0), recv(1, 0, 2), recv(1, 1, 3), send(1), recv(1, 1, 4), recv(1, 2, 5), send(2), recv(1, 2, 6),
 			recv(1, 3, 7), send(3), recv(1, 3, 8), recv(1, 4, 9), send(4), recv(1, 4, 10), recv(1, 5, 11), send(5), recv(1, 5, 12)}}, 0},
+		// a topic that stays in use: the local party sends on it every three epochs (expiry 4), the third send runs a
+		// garbage collection; the topic is active, so it must survive it and a later arrival must be handed over
+		{"keep-alive", [][]boxCall{{send(0), tick(), tick(), tick(), send(0), tick(), tick(), tick(), send(0), recv(1, 0, 1)}}, 0},
+		{"keep-alive/2", [][]boxCall{{send(0), tick(), tick(), tick(), send(0), tick(), tick(), tick(), send(0), tick(), tick(), tick(), send(1), recv(1, 0, 1), recv(2, 0, 2)}}, 0},
 		{"sequential-topics/2", [][]boxCall{{recv(1, 0, 1), send(0), recv(1, 1, 3), send(1), recv(1, 2, 5), send(2), recv(1, 3, 7), send(3), recv(1, 4, 9), send(4), recv(1, 5, 11), send(5)},
 			{recv(2, 0, 21), recv(2, 5, 22)}}, 0},
 		// a garbage collection is due at the first Send (4 epochs have passed); the clock ticks and a message arrives /
@@ -293,7 +297,7 @@ func runBoxSched(r *prng.R, s *out.Sink, tier string) {
 			}
 			checkSchedOutcome(s, sc, sr, schedule)
 			// feed a sample of complete schedules to the model, step by step
-			if sc.preTicks == 0 && (count%97 == 1 || count <= 3) {
+			if sc.preTicks == 0 && !scriptTicks(sc) && (count%97 == 1 || count <= 3) {
 				emitSchedOps(s, sc, sr)
 			}
 			// next schedule
@@ -326,7 +330,7 @@ func runBoxSched(r *prng.R, s *out.Sink, tier string) {
 					s.Violate("C14", "a goroutine blocked or the run did not terminate under the controlled scheduler", fmt.Sprintf("scenario=%s schedule=%v", sc.name, schedule))
 				}
 				checkSchedOutcome(s, sc, sr, schedule)
-				if sc.preTicks == 0 && k%97 == 1 {
+				if sc.preTicks == 0 && !scriptTicks(sc) && k%97 == 1 {
 					emitSchedOps(s, sc, sr)
 				}
 			}
@@ -341,6 +345,19 @@ func runBoxSched(r *prng.R, s *out.Sink, tier string) {
 		keys = append(keys, k)
 	}
 	sort.Strings(keys)
+}
+
+// scriptTicks: does a scenario move the clock? (the Lean model of the interleaved box has no clock: such scenarios are
+// judged by the direct monitors only)
+func scriptTicks(sc schedScenario) bool {
+	for _, th := range sc.scripts {
+		for _, c := range th {
+			if c.tick {
+				return true
+			}
+		}
+	}
+	return false
 }
 
 // emitSchedOps writes one complete schedule as operations for the Lean model of the interleaved box.
